@@ -32,16 +32,33 @@ structure SigParam where
   default : Val                  -- every emitted parameter has a default (`None` when the description has none)
 deriving DecidableEq, Repr
 
+/-- plain function / instance method / class method -/
+inductive FType where
+  | static | self | cls
+deriving DecidableEq, Repr
+
+/-- `function_type = function_type or intermediate_repr["type"]`: the kind the caller passes wins, the
+    description's own kind is the fallback -/
+def effectiveType (given : Option FType) (irType : FType) : FType := given.getD irType
+
+/-- the leading parameter of the emitted `def` -/
+def receiverOf : FType → Option Str
+  | .static => none
+  | .self => some ['s', 'e', 'l', 'f']
+  | .cls => some ['c', 'l', 's']
+
 structure Sig where
   params : List SigParam
   hasVarKw : Bool
   returnAnnotation : Option Str
+  receiver : Option Str := none
 deriving DecidableEq, Repr
 
-def sigView (inlineTypes kwOnly : Bool) (ir : IR) : Sig :=
+def sigView (inlineTypes kwOnly : Bool) (ir : IR) (ft : FType := .static) : Sig :=
   let n := norm (.func inlineTypes) ir
   let ps := n.params.filter fun kp => !kwargsName kp.1
-  { params := ps.map fun kp =>
+  { receiver := receiverOf ft,
+    params := ps.map fun kp =>
       { name := kp.1, kwOnly := kwOnly, annotation := if inlineTypes then kp.2.typ else none,
         default := runtimeVal (kp.2.default.getD .none) },
     hasVarKw := n.params.any fun kp => kwargsName kp.1,
@@ -74,6 +91,17 @@ def argOpt (name : Str) (p : Param) : ArgOpt :=
 def argView (ir : IR) : List ArgOpt := ir.params.map fun kp => argOpt kp.1 kp.2
 
 /-! ### what the views guarantee -/
+
+/-- the emitted `def` starts with `self` / `cls` exactly for an instance / class method, whether the kind was
+    passed by the caller or taken from the description -/
+theorem sigView_receiver (i k : Bool) (ir : IR) (given : Option FType) (irType : FType) :
+    (sigView i k ir (effectiveType given irType)).receiver =
+      receiverOf (match given with | some t => t | none => irType) := by
+  cases given <;> rfl
+
+theorem receiverOf_static_iff (t : FType) : receiverOf t = none ↔ t = .static := by
+  cases t <;> simp [receiverOf]
+
 
 theorem argView_dests (ir : IR) : (argView ir).map (·.dest) = ir.params.map (·.1) := by
   unfold argView
